@@ -99,7 +99,7 @@ pub fn rule(id: &str) -> String {
 		"C14" => "seeded histories on wallets opened with a keychain mask (restarts give every wallet several successive tokens); at random wallet states every token-taking api::Owner method (14 state-changing / key-deriving / secret-revealing ones and 6 read-only ones) is called with the right token, no token, a random token, the right token with one bit flipped, another wallet's token and the token of a previous open; wallets are closed through close_wallet and called again; at the end the same explicit trace is replayed in an unmasked twin world and step outcomes and a canonical end-state projection (per account value/status/coinbase of outputs, entry types, amounts, confirmations, proofs) are compared; a case is one call (method x token class x open/closed) or one twin comparison; non-trivial when the token is not the right one or the wallet is closed".into(),
 		"C09" => "after a seeded history has put valid traffic of every kind on the wire (S1/S2/S3/I1/I2 slates, with and without proofs and TTLs), bursts of faulted decodes: an entry point (V4 slate JSON, armored slatepack plain / encrypted to the wallet, binary and JSON slatepack, decode_slatepack_message, slatepack and onion address, payment-proof JSON + verify, foreign JSON-RPC receive_tx / finalize_tx / build_coinbase bodies, owner JSON-RPC requests inside an honest encrypted envelope, slatepack file, age ciphertext validly encrypted to the wallet with a malformed plaintext) x a byte-level fault (bit flip(s), truncate, extend, duplicate/drop a segment, splice two messages, swap armor words, whitespace/'>' insertion, header/footer edits, alphabet violation, length-prefix extremes, digit edits, whole-message replacement); a case is one (entry, fault, outcome); non-trivial when the fault changed the bytes; panics are caught at the step boundary, allocation is counted per step, a real-time watchdog turns a hang into an abnormal death with a journal".into(),
 		"C10" => "slates taken from a seeded history between 3 wallets are packed by a sender for recipient sets of size 0 (plain armor) to 4 drawn from all wallets' addresses at derivation indices 0..3; each message is delivered to every recipient, misdelivered to every other (wallet, index) identity in the world and to a keyless reader, its raw bytes are searched for the binary and JSON slate, participant keys and the sender address, its armored text is edited (character changed / dropped / inserted / transposed, 16 or 40 edits) and its encrypted payload is bit-flipped and re-armored with a recomputed checksum; a case is one recipient read / misdelivery / text edit / payload edit; misdeliveries and edits are the non-trivial ones".into(),
-		"C20" => "a seeded history (wallets kept stale: blocks mined and transactions confirmed on the node that the wallet has not looked at yet) brings a wallet to a pre-state with several pending transactions; a scenario is T0 (one full update_wallet_state pass, or a scan) plus 1..3 owner/foreign operations (init, lock, receive, finalize, cancel, post) on that wallet; from one directory snapshot every serial order of the tasks is executed (<= 4! orders) to obtain the set of serial outcomes under a canonical projection, then 14 (quick) / 40 (thorough) interleavings are executed as real threads under the baton scheduler (alternating uniform-random and PCT-style priority schedules; yield points are the wallet-lock acquisitions and node calls outside lock scopes) and each end state must be in the serial set (tier 1). About a third of the scenarios also switch the active account inside the window. Tier 2: a third of the scenarios put node events (a block, the node going down or up) inside the window, and a scripted 'TTL race' (send with a time-to-live finalized while a refresh runs and the cutoff block arrives) is run under a hand-biased schedule prefix; these are executed once for real (the chain is not rolled back) and judged by completed effects: whatever an operation that returned Ok recorded (entry type, final kernel excess, proof signature, reservation, context) is still there at the end, and no hang. evaluations = interleavings executed, distinct_nontrivial = distinct schedules (choice lists) per scenario".into(),
+		"C20" => "a seeded history (wallets kept stale: blocks mined and transactions confirmed on the node that the wallet has not looked at yet) brings a wallet to a pre-state with several pending transactions; a scenario is T0 (one full update_wallet_state pass, a scan, or the wallet's own updater thread started with start_updater, adopted by the scheduler at its first lock section and stopped with stop_updater once the operations are done) plus 1..3 owner/foreign operations (init, lock, receive, finalize, cancel, post, and the invoice steps issue, pay, reserve, finalize by the payee) on that wallet; from one directory snapshot every serial order of the tasks is executed (<= 4! orders) to obtain the set of serial outcomes under a canonical projection (for the updater thread: every order of the operations x an updater pass or none before each x a final pass), then 14 (quick) / 40 (thorough) interleavings are executed as real threads under the baton scheduler (alternating uniform-random and PCT-style priority schedules; yield points are the wallet-lock acquisitions and node calls outside lock scopes) and each end state must be in the serial set (tier 1). About a third of the scenarios also switch the active account inside the window. Tier 2: a third of the scenarios put node events (a block, the node going down or up) inside the window, and a scripted 'TTL race' (send with a time-to-live finalized while a refresh runs and the cutoff block arrives) is run under a hand-biased schedule prefix; these are executed once for real (the chain is not rolled back) and judged by completed effects: whatever an operation that returned Ok recorded (entry type, final kernel excess, proof signature, reservation, context) is still there at the end, and no hang. evaluations = interleavings executed, distinct_nontrivial = distinct schedules (choice lists) per scenario".into(),
 		_ => "seeded histories".into(),
 	}
 }
